@@ -4,6 +4,7 @@ C09 helper lemmas, part 20: the executable glue check decides the hypotheses of
 -/
 import ArvVerif.Model.C09_Glue
 import ArvVerif.Proofs.C09_Load
+import ArvVerif.Proofs.C09_Dirs
 namespace ArvVerif.C09
 
 open ArvVerif.C08 (Seg FileNode)
@@ -42,5 +43,34 @@ theorem glueOK_sound (size : Bytes → Nat) (tr : C10.FsTree) (t : Tree9) (h : g
   · intro e he
     obtain ⟨d, hd, f, hf, hk⟩ := r2 e he
     exact ⟨d, hd, f, hf, hk⟩
+
+theorem path_split : ∀ (k : List Bytes), k ≠ [] → k.dropLast ++ [k.getLastD []] = k
+  | [], h => absurd rfl h
+  | [a], _ => rfl
+  | a :: b :: r, _ => by
+    have := path_split (b :: r) (by simp)
+    simp only [List.dropLast_cons_cons, List.getLastD_cons, List.cons_append] at this ⊢
+    rw [this]
+
+theorem shapeOK_sound (t : Tree9) (h : shapeOK t = true) :
+    TreeClosed t ∧ (∀ d ∈ t, ∀ f ∈ d.files, d.path ++ [f.1] ∉ dirPaths t) ∧ (dirPaths t).Nodup ∧
+    (∀ d ∈ t, (d.files.map (·.1)).Nodup) ∧ (∀ d ∈ t, ∀ c ∈ d.path, NameOK c) ∧ (∀ d ∈ t, ∀ f ∈ d.files, NameOK f.1) := by
+  simp only [shapeOK, closedB, noClashB, Bool.and_eq_true, List.all_eq_true, List.any_eq_true, decide_eq_true_eq,
+    Bool.or_eq_true, beq_iff_eq, List.contains_iff_mem, List.isEmpty_iff, Bool.not_eq_eq_eq_not,
+    Bool.not_true, List.isEmpty_eq_false_iff] at h
+  obtain ⟨⟨⟨⟨⟨⟨c1, c2⟩, c3⟩, c4⟩, c5⟩, c6⟩, c7⟩ := h
+  refine ⟨⟨?_, ?_⟩, ?_, c4, c5, fun d hd c hc => nameOKb_sound c (c6 d hd c hc), fun d hd f hf => nameOKb_sound _ (c7 d hd f hf)⟩
+  · intro d hd hne
+    rcases c1 d hd with h' | h'
+    · exact absurd h' hne
+    · exact h'
+  · intro d hd hsub
+    rcases c2 d hd with h' | ⟨c, hc, hcne, hcd⟩
+    · omega
+    · exact ⟨c, hc, c.path.getLastD [], by rw [← hcd]; exact (path_split c.path hcne).symm⟩
+  · intro d hd f hf hm
+    have := c3 d hd f hf
+    simp only [List.contains_eq_mem, decide_eq_false_iff_not] at this
+    exact this hm
 
 end ArvVerif.C09
